@@ -60,6 +60,9 @@ def _tag(v):
             c, sym = v.as_coeff_Mul()
             if c.is_Integer and isinstance(sym, sympy.Symbol) and sym.name[:1] == 'v' and sym.name[1:].isdigit():
                 return int(c) * int(sym.name[1:])
+            # symbols created BY NAME: 'w' + the digits of the blade name  ->  9<digits>
+            if c.is_Integer and isinstance(sym, sympy.Symbol) and sym.name[:1] == 'w' and (sym.name[1:].isdigit() or sym.name == 'w'):
+                return int(c) * int('9' + sym.name[1:])
             return GARBAGE
         if isinstance(v, (int, float, Fraction, np.floating, np.integer)) and v == int(v):
             return int(v)
@@ -158,6 +161,34 @@ def run_job(job):
             gs = sorted({bin(k).count('1') for k in ks} | ({rng.randint(0, d)} if rng.random() < 0.5 else set()))
             supplied = [[digits(n), v] for n, v in zip(kn, vs)]
             build = lambda: alg.multivector(keys=tuple(ks), values=W(vs), grades=tuple(gs))
+        elif form.startswith('byname'):
+            # symbolic multivectors created by name: the coefficient of blade e<digits> is the symbol w<digits>
+            vtype = 'symbol'
+            wrap = lambda p_: _wrap('symbol', p_)        # noqa: E731   (map / filter keep working on tags)
+            wtag = lambda nm_: int('9' + nm_[1:])         # noqa: E731
+            if form == 'byname_full':
+                supplied = [[digits(alg.bin2canon[k]), wtag(alg.bin2canon[k])] for k in bins]
+                build = lambda: alg.multivector(name='w')
+            elif form == 'byname_keys':
+                ks3 = ks or [bins[0]]
+                use_names = rng.random() < 0.5
+                supplied = [[digits(alg.bin2canon[k]), wtag(alg.bin2canon[k])] for k in ks3]
+                build = lambda: alg.multivector(name='w', keys=tuple(alg.bin2canon[k] for k in ks3) if use_names else tuple(ks3))
+            elif form == 'byname_grades':
+                gs = sorted(rng.sample(range(d + 1), rng.randint(1, min(3, d + 1))))
+                ks3 = grade_keys(gs)
+                supplied = [[digits(alg.bin2canon[k]), wtag(alg.bin2canon[k])] for k in ks3]
+                build = lambda: alg.multivector(name='w', grades=tuple(gs))
+            else:
+                helper = rng.choice(['scalar', 'vector', 'bivector', 'evenmv', 'oddmv', 'pseudoscalar'])
+                g = {'scalar': [0], 'vector': [1], 'bivector': [2], 'evenmv': [x for x in range(d + 1) if x % 2 == 0],
+                     'oddmv': [x for x in range(d + 1) if x % 2 == 1], 'pseudoscalar': [d]}[helper]
+                g = [x for x in g if 0 <= x <= d] or [0]
+                if g == [0]:
+                    helper = 'scalar'
+                ks3 = grade_keys(g)
+                supplied = [[digits(alg.bin2canon[k]), wtag(alg.bin2canon[k])] for k in ks3]
+                build = lambda: getattr(alg, helper)(name='w')
         elif form == 'blade':
             nm = respell(rng.choice(names))
             supplied = [[digits(nm), 1]]
